@@ -96,7 +96,12 @@ func (g *Gen) frameObls(st *State, pos token.Pos) {
 		case "new":
 			g.assert(st, "frame", c, fmt.Sprintf("(forall ((fr Int)) (=> (<= fr %s) (= (select %s fr) (select %s fr))))", g.heapGet(g.entry, "alloc"), cur, init), "only newly allocated objects of "+c+" differ", pos)
 		default:
-			g.assert(st, "frame", c, eq(cur, init), "component "+c+" is not in the modifies clause", pos)
+			if strings.HasPrefix(g.compSort(c), "(Array Int ") && (strings.HasPrefix(c, "H_") || strings.HasPrefix(c, "F_") || strings.HasPrefix(c, "C_") || strings.HasPrefix(c, "M")) {
+				// heap components: writes to objects allocated by this call are not effects
+				g.assert(st, "frame", c, fmt.Sprintf("(forall ((fr Int)) (=> (<= fr %s) (= (select %s fr) (select %s fr))))", g.heapGet(g.entry, "alloc"), cur, init), "component "+c+" is not in the modifies clause (objects that existed at entry must be unchanged)", pos)
+			} else {
+				g.assert(st, "frame", c, eq(cur, init), "component "+c+" is not in the modifies clause", pos)
+			}
 		}
 	}
 }
@@ -195,8 +200,12 @@ func (g *Gen) call(x ssa.Value, cc *ssa.CallCommon, st *State) {
 		g.havocAll(st)
 	default:
 		oldAlloc := g.heapGet(st, "alloc")
+		g.havocComp(st, "alloc") // any non-pure callee may allocate
 		for _, pat := range ct.Modifies {
 			for _, c := range g.expandMod(pat) {
+				if c == "alloc" {
+					continue
+				}
 				old := g.heapGet(st, c)
 				g.havocComp(st, c)
 				if strings.HasPrefix(pat, "new ") && c != "alloc" {
@@ -245,8 +254,17 @@ func (g *Gen) call(x ssa.Value, cc *ssa.CallCommon, st *State) {
 // callScope: callee parameter names plus the caller's source names at this point.
 func (g *Gen) callScope(vars map[string]Val) map[string]Val {
 	out := map[string]Val{}
+	if g.curBlock != nil && g.curSt != nil {
+		// source names visible at the call: dominating blocks, then the current block so far
+		for k, v := range g.scopeAt(g.curBlock, nil, g.curSt) {
+			out[k] = v
+		}
+		g.scopeBlockUpTo(g.curBlock, g.curInstr, out, g.curSt)
+	}
 	for k, v := range g.params {
-		out[k] = v
+		if _, ok := out[k]; !ok {
+			out[k] = v
+		}
 	}
 	for k, v := range vars {
 		out[k] = v
@@ -512,7 +530,7 @@ func (g *Gen) next(x *ssa.Next, st *State) {
 		g.ensureExtra("(declare-fun runeAt ((Array Int Int) Int Int) Int)\n(declare-fun runeW ((Array Int Int) Int Int) Int)\n" +
 			"(assert (forall ((a (Array Int Int)) (p Int) (h Int)) (! (and (>= (runeW a p h) 1) (<= (runeW a p h) 4) (=> (< p h) (<= (+ p (runeW a p h)) h)) (>= (runeAt a p h) 0)) :pattern ((runeW a p h)))))\n" +
 			"(assert (forall ((a (Array Int Int)) (p Int) (h Int)) (! (=> (and (< p h) (< (select a p) 128)) (and (= (runeW a p h) 1) (= (runeAt a p h) (select a p)))) :pattern ((runeAt a p h)))))")
-		arr, lo, hi := sArr(src.S), add(sOff(src.S), pos), add(sOff(src.S), sLen(src.S))
+		arr, lo, hi := sArr(src.S), add(sOff(src.S), pos), sHi(src.S)
 		ok := g.define("itok", "Bool", "(< "+pos+" "+sLen(src.S)+")")
 		r := g.define("itrune", "Int", "(runeAt "+arr+" "+lo+" "+hi+")")
 		w := "(runeW " + arr + " " + lo + " " + hi + ")"
